@@ -38,3 +38,10 @@ def run(rep: Report, repo: Repo, tier: str) -> None:
         protocol.rule_accepted_arities(rep, repo, "C11-R9", kinds=["ct_add_test", "ct_add_section", "add_test"])
     with rep.isolated():
         protocol.rule_rejections(rep, repo, "C11-R10", kinds=["ct_add_test", "ct_add_section", "add_test"])
+    # what a test entry shows: `function` directive with the one warning, signature = name(arguments joined by one space)
+    from . import render as _render
+    with rep.isolated():
+        _render.rule_kind_rendering(rep, repo, "C11-R11", only={"TestDocumentation", "SectionDocumentation", "CTestDocumentation"})
+    # an undocumented test command consults the switch of its own kind
+    with rep.isolated():
+        protocol.rule_own_flag(rep, repo, "C11-R12", kinds=["ct_add_test", "ct_add_section", "add_test"])
